@@ -297,6 +297,30 @@ func execOp(s *Sess, st *concState, thread, idx int, o Op, r *ConcRun) {
 		if err == nil {
 			r.Closed = true
 		}
+	case Open2:
+		// a competing Open of the same directory (second handle); on success its contents are read and it is closed again
+		db2, err := pogreb.Open(DBPath, s.Cfg.Options(s.FS))
+		if err != nil {
+			seterr(err)
+			break
+		}
+		e.Found = true
+		e.N = int(db2.Count())
+		it := db2.Items()
+		for n := 0; n < 100000; n++ {
+			k, v, err := it.Next()
+			if err != nil {
+				if err != pogreb.ErrIterationDone {
+					e.Val = "scan error: " + err.Error()
+				}
+				break
+			}
+			e.Pairs = append(e.Pairs, [2]string{string(k), string(v)})
+		}
+		e.PairT = append(e.PairT, vsync.LogicalTime()) // when the second handle was open and read
+		if err := db2.Close(); err != nil {
+			e.Val = "Close of the second handle: " + err.Error()
+		}
 	}
 	e.Ret = vsync.LogicalTime()
 	e.LogPos = len(s.FS.Log)
